@@ -15,6 +15,7 @@ SCOPE = {
     'thorough': 'callables with <=3 positional-or-keyword parameters, optional *args, <=2 keyword-only parameters, optional **kw; '
                 'calls with 0..4 positionals and every ordered selection of <=3 keywords; the same 52 keymap configurations',
 }
+SCOPE = {t: SCOPE[t] + '; ' + SCOPE['reserved names'] for t in ('quick', 'thorough')}
 ASSUMPTIONS = ['bounded scope, not a proof', 'ground truth for binding = calling a stub of the same shape under CPython',
                'argument values are opaque tokens with value-based equality; tol=None (rounding is C12)']
 
